@@ -37,25 +37,74 @@ theorem cS_labels (mod : String) : ∀ (n : Nat),
           exact hE _ e env.lm
         · exact LblInv.nil mod env.lm
       case exprS sp e =>
-        cases e <;> try exact LblInv.nil mod env.lm
-        rename_i asp op l r
-        cases op <;> cases l <;> try exact LblInv.nil mod env.lm
-        · rename_i g _ _
-          cases g
-          · simp only [cS, definedLabels_append,
-              definedLabels_instr _ _ _ (rfl : isLabel (Instr.setVar _ : SInstr) = false),
-              definedLabels_nil, List.append_nil]
-            exact hE _ r env.lm
-          · exact LblInv.nil mod env.lm
-        · rename_i o _ _ _ g _ _
-          cases g
-          · have : definedLabels ((arithI o).map (·, asp)) = [] := by cases o <;> rfl
-            simp only [cS, definedLabels_append, this,
-              definedLabels_instr _ _ _ (rfl : isLabel (Instr.setVar _ : SInstr) = false),
-              definedLabels_instr _ _ _ (rfl : isLabel (Instr.getVar _ : SInstr) = false),
-              definedLabels_nil, List.append_nil, List.nil_append]
-            exact hE _ r env.lm
-          · exact LblInv.nil mod env.lm
+        cases e
+        case assign asp op l r =>
+          cases op <;> cases l <;> try exact LblInv.nil mod env.lm
+          · rename_i g _ _
+            cases g
+            · simp only [cS, definedLabels_append,
+                definedLabels_instr _ _ _ (rfl : isLabel (Instr.setVar _ : SInstr) = false),
+                definedLabels_nil, List.append_nil]
+              exact hE _ r env.lm
+            · exact LblInv.nil mod env.lm
+          · rename_i o _ _ _ g _ _
+            cases g
+            · have : definedLabels ((arithI o).map (·, asp)) = [] := by cases o <;> rfl
+              simp only [cS, definedLabels_append, this,
+                definedLabels_instr _ _ _ (rfl : isLabel (Instr.setVar _ : SInstr) = false),
+                definedLabels_instr _ _ _ (rfl : isLabel (Instr.getVar _ : SInstr) = false),
+                definedLabels_nil, List.append_nil, List.nil_append]
+              exact hE _ r env.lm
+            · exact LblInv.nil mod env.lm
+        case ifE isp ty c t el =>
+          cases el with
+          | some eb =>
+            simp only [Frag.depthS] at hd
+            simp only [cS]
+            have h1 := hE (ρS env.scopes) c env.lm
+            have h2 := LblInv.single mod (cpE mod (ρS env.scopes) c env.lm).2 "if_after" (by decide)
+            have h3 := LblInv.single mod (freshLabel mod (cpE mod (ρS env.scopes) c env.lm).2 "if_after").2 "else"
+              (by decide)
+            have h4 := ihB t { env with lm := (freshLabel mod (freshLabel mod
+              (cpE mod (ρS env.scopes) c env.lm).2 "if_after").2 "else").2 } (by omega)
+            have h5 := ihB eb (cB mod t { env with lm := (freshLabel mod (freshLabel mod
+              (cpE mod (ρS env.scopes) c env.lm).2 "if_after").2 "else").2 }).2 (by omega)
+            refine ((((h1.append h2).append h3).append h4).append h5).perm (perm_of_count ?_)
+            intro a
+            simp only [definedLabels_append,
+              definedLabels_instr _ _ _ (rfl : isLabel (Instr.jumpIfFalse _ : SInstr) = false),
+              definedLabels_instr _ _ _ (rfl : isLabel (Instr.jump _ : SInstr) = false),
+              definedLabels_label, definedLabels_nil, List.count_append, List.count_cons, List.count_nil]
+            omega
+          | none =>
+            simp only [Frag.depthS] at hd
+            simp only [cS]
+            have h1 := hE (ρS env.scopes) c env.lm
+            generalize cpE mod (ρS env.scopes) c env.lm = C at h1 ⊢
+            have h2 := LblInv.single mod C.2 "if_after" (by decide)
+            generalize freshLabel mod C.2 "if_after" = aft at h2 ⊢
+            have h3 := LblInv.single mod aft.2 "else" (by decide)
+            generalize freshLabel mod aft.2 "else" = els at h3 ⊢
+            have h4 := ihB t { env with lm := els.2 } (by omega)
+            generalize cB mod t { env with lm := els.2 } = Tb at h4 ⊢
+            -- the `else` label is generated but not placed
+            have h1234 := ((h1.append h2).append h3).append h4
+            have hperm : (definedLabels (C.1 ++ [((Instr.jumpIfFalse aft.1 : SInstr), isp)] ++ Tb.1 ++
+                [(.jump aft.1, isp), (.label aft.1, isp)])).Perm
+                (definedLabels C.1 ++ [aft.1] ++ definedLabels Tb.1) := by
+              apply perm_of_count
+              intro a
+              simp only [definedLabels_append,
+                definedLabels_instr _ _ _ (rfl : isLabel (Instr.jumpIfFalse _ : SInstr) = false),
+                definedLabels_instr _ _ _ (rfl : isLabel (Instr.jump _ : SInstr) = false),
+                definedLabels_label, definedLabels_nil, List.count_append, List.count_cons, List.count_nil]
+              omega
+            have hsl : (definedLabels C.1 ++ [aft.1] ++ definedLabels Tb.1).Sublist
+                (definedLabels C.1 ++ [aft.1] ++ [els.1] ++ definedLabels Tb.1) :=
+              List.Sublist.append (List.sublist_append_left _ _) (List.Sublist.refl _)
+            exact ⟨h1234.mono, hperm.nodup_iff.mpr (hsl.nodup h1234.nodup),
+              fun l hl => h1234.range l (hsl.mem (hperm.mem_iff.mp hl))⟩
+        all_goals exact LblInv.nil mod env.lm
       case whileS sp c body =>
         simp only [Frag.depthS] at hd
         simp only [cS]
